@@ -533,12 +533,22 @@ def run_scale(ctx: Ctx, tlv):
     big = [65535, 65536, 254999, 255000, 262144 + 17, 1048576 + 1]
     if not ctx.quick:
         big += [rng.randrange(70000, 3000000) for _ in range(6)]
+    if ctx.failures:
+        # the codec is already shown wrong on ordinary sizes: megabyte inputs add nothing (and a broken codec
+        # may need minutes or gigabytes for them)
+        st.notes.append("scale cases skipped: a failing input was already found")
+        return
     for n in big:
         it = [(rng.choice([1, 5, 9]), _val(rng, n)), (2, b"\x01")]
         try:
-            enc = impl_encode(tlv, it)
+            with time_limit(20):
+                enc = impl_encode(tlv, it)
+        except Timeout:
+            st.notes.append(f"scale case of {n} bytes did not finish within 20 s: not judged, remaining scale cases skipped")
+            st.hit("outcome", "scale-timeout")
+            return
         except BaseException as ex:  # noqa: BLE001  (RecursionError, MemoryError: still an answer the property forbids)
-            if isinstance(ex, (KeyboardInterrupt, SystemExit, Timeout)):
+            if isinstance(ex, (KeyboardInterrupt, SystemExit)):
                 raise
             ctx.fail(
                 "C07:encode-raises-on-wellformed-items",
